@@ -221,9 +221,23 @@ impl Check for C05 {
             1..=3 => 1,
             _ => 0,
         };
-        let bs = *r.pick(&CLI_BLOCK_SIZES[..5]);
-        let data = DataGen::random(&mut r, bs, if engine == 2 { 20_000 } else { 40_000 });
-        Sc05 { seed: r.next_u64(), bs, data, engine, mutation: r.below(u64::from(N_MUT) + 2) as u32, param: r.next_u64() }
+        let mut bs = *r.pick(&CLI_BLOCK_SIZES[..5]);
+        let mut data = DataGen::random(&mut r, bs, if engine == 2 { 20_000 } else { 40_000 });
+        let mut mutation = r.below(u64::from(N_MUT) + 2) as u32;
+        // one run in 15: a few hundred KiB with small edits (long copies behind short literals —
+        // pieces on both sides of any internal buffer size), often with a fault that leaves the
+        // delta valid (a longer basis), so that success is the expected outcome
+        if r.below(15) == 0 {
+            bs = 8192;
+            data = DataGen::random(&mut r, bs, 400_000);
+            data.kind = 2;
+            data.basis_blocks = data.basis_blocks.max(12);
+            data.edits = data.edits.clamp(1, 2);
+            if r.coin() {
+                mutation = 2;
+            }
+        }
+        Sc05 { seed: r.next_u64(), bs, data, engine, mutation, param: r.next_u64() }
     }
     fn execute(&self, sc: &Sc05) -> RunReport {
         let mut rep = RunReport::default();
